@@ -54,7 +54,11 @@ CLAIM = dict(
           "concatenated proposals (schedLoop_flat, saPlaceSched_refines_saPlace), hence Feasible for every outcome of "
           "the float tests (saPlaceSched_sound). Tied to the code on every run: PythonKernel.run_steps and the callback "
           "are recorded, the passes are replayed through the model, and placement, number of passes, number of kernel "
-          "steps and the reason for leaving the loop (cooled / zero cost / callback) must agree."),
+          "steps and the reason for leaving the loop (cooled / zero cost / callback) must agree. In EXACT arithmetic the "
+          "cooling hypothesis is a theorem (Props/C02SchedExact.lean): a non-negative rational temperature multiplied by a "
+          "factor <= 19/20 per pass falls to or below every positive threshold (geometric_cools), so a schedule whose "
+          "threshold stays above a positive number while the loop runs terminates (saPlace_terminates_exact_schedule); "
+          "only the rounding of IEEE doubles separates this from the code."),
     design="3/C02",
     note=("NOT proved, only validated on every run: rig_c_sa (C annealing kernel) is an opaque binary, covered only by the "
           "Feasible oracle on its outputs (and by undocumented-exception / completeness reporting). In this module's correspondence "
@@ -91,7 +95,9 @@ THEOREMS = ["seqPlace_sound", "randPlace_sound", "saPlace_initial_sound", "seqPl
             # Props/C02Sched.lean: control skeleton of the annealing temperature schedule
             "schedLoop_steps", "schedLoop_terminates_under_cooling", "schedLoop_stops_at_cooled",
             "saPlace_terminates_under_cooling", "schedLoop_needs_a_stop", "schedLoop_diverges_without_cooling",
-            "schedLoop_flat", "saPlaceSched_refines_saPlace", "saPlaceSched_sound"]
+            "schedLoop_flat", "saPlaceSched_refines_saPlace", "saPlaceSched_sound",
+            # Props/C02SchedExact.lean: the cooling hypothesis holds in exact (rational) arithmetic
+            "geometric_cools", "saPlace_terminates_exact_schedule"]
 
 RULE = ("problems: 0-40 vertices (0-3 units of 1-3 resources, some needing nothing), random nets, machines 1x1..10x10 "
         "with dead chips (some made dead after construction) and per-chip resource exceptions drawn independently of them "
@@ -603,7 +609,7 @@ def nonneg_chips(chips):
 # the control skeleton of the annealing schedule (Model/C02Sched.lean)
 # ---------------------------------------------------------------------------
 
-SCHED_MAX_STEPS = 6000
+SCHED_MAX_STEPS = 3000
 
 
 def schedule_request(base, locs, vs, steps, passes, cb_rets, has_cb):
